@@ -2338,11 +2338,11 @@ func sectionRestartLeft() {
 
 func sectionUnflushed() {
 	sec := res.Section("unflushed", "spec-search",
-		"a server with a long flush period (WriteFlushMs 700); one write request into a NEW partition is acknowledged; a TRUNCATE follows at once - without bounds, with a MAXSIZE the partition is far below, as DRYRUN + real run; after the flush period the partition must exist and hold the acknowledged events (a partition is dropped only when it holds no data; acknowledged events are data)")
+		"a server with a long flush period (WriteFlushMs 400); one write request into a NEW partition is acknowledged; a TRUNCATE follows at once - without bounds, with a MAXSIZE the partition is far below, as DRYRUN + real run; after the flush period the partition must exist and hold the acknowledged events (a partition is dropped only when it holds no data; acknowledged events are data)")
 	defer res.Done(sec)
 	for _, form := range []string{"", " maxsize 100000", " before \"1\""} {
 		dir := lrsrv.NewDir()
-		srv, err := lrsrv.Start(dir, lrsrv.Opts{MaxChunkSize: 4000, WriteFlushMs: 700})
+		srv, err := lrsrv.Start(dir, lrsrv.Opts{MaxChunkSize: 4000, WriteFlushMs: 400})
 		if err != nil {
 			res.Note("unflushed: %v", err)
 			os.RemoveAll(dir)
@@ -2358,19 +2358,19 @@ func sectionUnflushed() {
 		q := "truncate {" + tags + "}" + form
 		dry, _ := srv.Exec(strings.Replace(q, "truncate ", "truncate dryrun ", 1))
 		out, xerr := srv.Exec(q)
-		time.Sleep(900 * time.Millisecond)
+		time.Sleep(550 * time.Millisecond)
 		settle(srv, tags, -1)
 		after := observe(srv, tags)
 		res.Eval(sec, q)
-		in := map[string]interface{}{"flush_ms": 700, "write": "3 events into the new partition " + tags + ", acknowledged", "then_at_once": []string{strings.Replace(q, "truncate ", "truncate dryrun ", 1), q}, "then": "wait 0.9 s, select"}
+		in := map[string]interface{}{"flush_ms": 400, "write": "3 events into the new partition " + tags + ", acknowledged", "then_at_once": []string{strings.Replace(q, "truncate ", "truncate dryrun ", 1), q}, "then": "wait 0.55 s, select"}
 		rs, rerr := readSeqs(after.Read)
 		dryRep, _, _ := parseReport(dry)
 		realRep, _, _ := parseReport(out)
 		if werr == nil && wr.Err == nil && xerr == nil && after.Exists && fmt.Sprint(rs) == "[1 2 3]" && len(dryRep) == 1 && dryRep[0].Deleted && len(realRep) == 0 {
-			// class of finding F84: the dry run's size == 0 branch goes by Size() (flushed bytes) alone and announces the drop of
+			// class of the FIXED finding F84 (466355c; a recurrence is reported as "the defect is back"): the dry run's size == 0 branch goes by Size() (flushed bytes) alone and announces the drop of
 			// a partition whose only data is acknowledged but not flushed; the real run keeps it
 			res.SpecFail(vh.SpecFailure{Section: "unflushed", Kind: "dryrun-announces-unflushed-drop", Input: in, Impl: fmt.Sprintf("dry=%q real=%q partition kept with %v", strings.TrimSpace(dry), strings.TrimSpace(out), rs),
-				Spec: "the dry run reports what the run removes: nothing", Model: "dryAnnouncesDrop 0 = true, deleteJournalSeen … 0 0 57 = false (cex_dry_announces_unflushed_drop)", ImplEqModel: true, Finding: "F84",
+				Spec: "the dry run reports what the run removes: nothing", Model: "dry_announces_drop_iff_run_drops: with the visitor's Sync the dry run announces nothing here (regress_dry_announces_unflushed_drop for the code before 466355c)", ImplEqModel: false, Finding: "F84",
 				What: "TRUNCATE DRYRUN announces the drop of a partition that holds acknowledged, not yet flushed events; the real run keeps the partition"})
 		}
 		if werr == nil && wr.Err == nil && (xerr != nil || !after.Exists || rerr != "" || fmt.Sprint(rs) != "[1 2 3]") {
